@@ -80,6 +80,9 @@ pub struct GenParams {
     /// when true the minus/plus lines of a run share most words, so that
     /// within-line edit inference has something to do
     pub similar_pairs: bool,
+    /// `hg diff --git`, or patches whose `index` lines were stripped
+    #[serde(default)]
+    pub no_index_lines: bool,
 }
 
 pub struct Gen<'a> {
@@ -314,6 +317,15 @@ impl<'a> Gen<'a> {
     }
 
     pub fn section(&mut self, p: &GenParams, kind: SectionKind, section: usize) {
+        let start = self.lines.len();
+        self.section_inner(p, kind, section);
+        if p.no_index_lines {
+            let tail: Vec<GLine> = self.lines.split_off(start);
+            self.lines.extend(tail.into_iter().filter(|l| !(l.kind == LineKind::Meta && l.text.starts_with("index "))));
+        }
+    }
+
+    fn section_inner(&mut self, p: &GenParams, kind: SectionKind, section: usize) {
         use SectionKind::*;
         let a = self.fname(section);
         let b = match kind {
@@ -501,6 +513,7 @@ pub fn random_params(rng: &mut Rng, pivot: usize) -> GenParams {
         multibyte: rng.chance(1, 3),
         no_newline_marker: rng.chance(1, 3),
         similar_pairs: rng.chance(1, 2),
+        no_index_lines: rng.chance(1, 8),
     }
 }
 
